@@ -327,4 +327,7 @@ def run(ctx):
     r7_once(ctx)
     r7b_answers_only_resolve(ctx)
     from . import C07
+    C07.r1_port_dependence(ctx)    # ... and the port dialled is the port requested, not one remembered from an earlier request for the same name
+    C09.r2_flag_writer(ctx)        # the session's death reaches every pending open: only close() raises the closed flag (a second writer makes close() a no-op)
+    C09.r8_io_error_closes(ctx)
     C07.r5_domain_len(ctx)    # the destination the verdict is about is the one that was requested: an over-long name is refused, not truncated into another host
